@@ -270,5 +270,11 @@ def check(s):
              "with the flags as the collector writes them, ~done | timeout is the Boolean function ~terminal(successor) (independent of truncation)", o["loc"],
              key="collector-mask-composition", detail=f"composed: {show_term(got, 300) if got else 'flags missing'}\nwanted:   {show_term(want, 300)}",
              necessary_for="the target never bootstraps through a termination, also when the time limit expires on the terminating step, and always through a pure truncation")
-    for r, n in (("C07.1", 4), ("C07.2", 8), ("C07.3", 12), ("C07.4", 12), ("C07.5", 1), ("C07.6", 2)):
+        s.eq("C07.6", o["con"], o["nz"], o["args"].get("next_observation", NONE), o["ref"]["next_obs"],
+             "the successor observation s' the target evaluates V' at is the observation of the pre-reset successor state", o["loc"], key="collector-successor-observation",
+             necessary_for="V'(s') is the value of the state the transition led to, not of the freshly reset state")
+        rews = [x for x in walk(("tuple", tuple(v for v in o["args"].values() if v is not None))) if isinstance(x, tuple) and x and x[0] == "call" and x[1] == ("attr", ("param", "env"), "reward")]
+        s.ob("C07.6", o["con"], len(rews) == 1 and o["args"].get("reward") == rews[0], "the reward r of the target is the step's env.reward result, stored unmodified", o["loc"],
+             key="collector-reward", detail=show(o["args"].get("reward", NONE), maxlen=160))
+    for r, n in (("C07.1", 4), ("C07.2", 8), ("C07.3", 12), ("C07.4", 12), ("C07.5", 1), ("C07.6", 6)):
         s.floor(r, n)
